@@ -1,24 +1,28 @@
 // First-byte rejection filter (nfa/firstbytes.go): model tie and soundness on the real code.  `go run . fb`
 //
-//   * model tie: nfa.ExtractFirstBytes(syntax.Parse(p, Perl)) — nil?, Count(), IsComplete(), the 256 answers of
+//   - model tie: nfa.ExtractFirstBytes(syntax.Parse(p, Perl)) — nil?, Count(), IsComplete(), the 256 answers of
 //     Contains — against the Lean model (`re-fb`), for every generated pattern and for `(?i)\x{r}` for EVERY rune r
 //     with a case variant (the whole generated orbit table of the driver);
-//   * soundness on the real code: whenever the set is non-nil and complete, for every haystack of an exhaustive small
+//   - soundness on the real code: whenever the set is non-nil and complete, for every haystack of an exhaustive small
 //     set on which stdlib `^(?:p)` matches, the first byte must be in the set — counted separately for non-empty matches
-//     and for all matches of a non-empty haystack (what the callers need), and separately for the patterns inside the
-//     Lean fragment `fbFrag` (must be 0: the theorem replayed on the real code) and outside it (findings);
-//   * reachability: when meta actually installs the filter (start-anchored, UseBoundedBacktracker, IsUseful), the public
+//     and for all matches of a non-empty haystack (what the callers need), and separately for the patterns satisfying
+//     the Lean side conditions `fbFrag` (must be 0: the theorem replayed on the real code) and the others (since the
+//     assertion fix: only patterns with a literal U+FFFD, which regexp matches against an ill-formed byte and coregex's
+//     engines never do); failures on a haystack that begins with a WELL-FORMED rune must be 0 for every pattern;
+//   - reachability: when meta actually installs the filter (start-anchored, UseBoundedBacktracker, IsUseful), the public
 //     coregex FindIndex is compared with stdlib on the same haystacks.
 package main
 
 import (
 	"bytes"
 	"fmt"
+	"os"
 	"regexp"
 	"regexp/syntax"
 	"sort"
 	"strings"
 	"unicode"
+	"unicode/utf8"
 
 	"github.com/coregx/coregex"
 	"github.com/coregx/coregex/meta"
@@ -46,17 +50,52 @@ func fbPatterns() []string {
 	wraps := []string{`%s`, `(?i)%s`, `(%s)`, `(?:%s)+`, `(?:%s){2}`, `(?:%s){1,3}`, `(?:%s){0,2}`, `(?:%s)*`, `(?:%s)?`, `(?:%s)+?`, `(?i:%s)+`}
 	ctxs := []string{`^%s`, `%s`, `^%sx`, `^(?:%s|x)`, `^(?:%s|^)`, `^(?:%s|$)`, `^(?m:%s|$)`, `(?m)^%s$`, `\b%s`, `^\b%s`, `^(?:|%s)b`,
 		`^(^)%s`, `^(?:x|(^)%s)`, `^(?:x|(?m:^)%s)`, `^%s*b`, `\A%s\z`, `^(?:x|(?m:$)\n%s)`, `^(?:%s|\z)`, `^(?:x|(?:^)+%s)`, `^(?:%s)(?:^)`}
+	// assertion-in-first-position shapes (after "an assertion in first position must not make the first-byte set look
+	// complete"): anchors inside alternation branches, captures, repeats, nested groups; `\b` / `\B` first; empty
+	// alternatives; assertion-only prefixes that isAssertionOnly does and does not recognise
+	ctxs = append(ctxs,
+		// anchors as / in alternation branches
+		`^(?:^%s|x)`, `^(?:$|%s)`, `^(?:\A|%s)`, `^(?:%s|\z)x`, `^(?:%s|^|$)`, `^(?m:^|%s)x`, `^(?m:%s|$)x`, `^(?m:$\n|%s)`, `^(?:$%s|^%s)`,
+		`^(?:(?:^)%s|$)`, `(?m)^(?:%s|$)`, `(?m)(?:^|x)%s`, `(?m)(?:^%s|$\n%s)`, `(?:^|%s)`, `(?:%s|$)`, `(?:\A%s|\z)`,
+		// anchors in captures and nested groups
+		`^((^)|%s)`, `^((?m:^)%s)`, `^(($)%s)`, `^(((^))((%s)))`, `^(?:(?:(?:(^)))%s|x)`, `^((\A)($))%s`, `^(?:x|((?m:^$))\n%s)`, `^((^)%s|(\z)x)`,
+		// anchors under repeats
+		`^(?:(^))+%s`, `^(?:^$)+%s`, `^((^)+)%s`, `^(?:^)*%s`, `^(?:^)?%s`, `^(?:^){2}%s`, `^(?:^){1,2}%s`, `^(?:(?:^)+|x)%s`, `^(?:^|$)%s`, `^(?:^|$)+%s`,
+		`^(?:%s|^)+x`, `^(?:^|%s)+x`, `^(?:%s|$)+`, `^(?:(?:^)+%s)+`, `^(?:(^)%s){2}`, `^(?:(?m:$)%s)+`, `^(?:(?:^)+?%s|x)`,
+		// \b and \B first
+		`^\B%s`, `\B%s`, `^(?:\b%s|x)`, `^(?:x|\B%s)`, `^(\b)%s`, `^(?:\b)+%s`, `^(?:%s|\b)`, `^(?:%s|\B)x`, `^(?:^\b)%s`, `^(^)\b%s`,
+		// empty alternatives, empty groups
+		`^(?:|%s)`, `^(?:%s|)x`, `^(?:%s||x)`, `^(?:(?:)%s|x)`, `^()%s`, `^(?:()|%s)`, `^(?:(^)()%s|x)`, `^(?:(?:|^)%s|x)`,
+		// end assertions in front (can only hold at the end / before a line feed)
+		`$%s`, `(?m)$%s`, `(?m)$\n%s`, `\z%s`, `^(?:x|\z%s)`, `^(?m:$)+\n%s`)
 	for _, a := range atoms {
 		for _, w := range wraps {
 			for _, c := range ctxs {
-				add(fmt.Sprintf(c, fmt.Sprintf(w, a)))
+				e := fmt.Sprintf(w, a)
+				if strings.Count(c, "%s") == 2 {
+					add(fmt.Sprintf(c, e, e))
+				} else {
+					add(fmt.Sprintf(c, e))
+				}
 			}
 		}
+	}
+	// isAssertionOnly has no depth bound, extractFirstBytesRecursive has (20)
+	for _, n := range []int{1, 5, 19, 20, 21, 22, 25, 40} {
+		add("^" + strings.Repeat("(", n) + "^" + strings.Repeat(")", n) + "a")
+		add("^(?:x|" + strings.Repeat("(", n) + "^" + strings.Repeat(")", n) + "a)")
+		add("^" + strings.Repeat("(", n) + "^a" + strings.Repeat(")", n))
+		add("^" + strings.Repeat("(?:(", n) + "^" + strings.Repeat(")+)", n) + "a")
+		add("^" + strings.Repeat("(", n) + "a|^" + strings.Repeat(")", n))
 	}
 	for _, p := range []string{`^(\d+|UUID|hex32)`, `^(?i)(hello)$`, `^\pN`, `^é+x`, `^/.*\.php$`, `^(?:ab|^)+x`, `^$`, `^`, `$`, `(?m)^`, `^a*b`, `^(?:|a)b`,
 		`^\bab`, `^\Bab`, `^(?i:k)`, `^(?i:s)`, `^(?i:ǆ)`, `^(?i:ι)`, `^(?i:µ)`, `^(?i:ß)`, `^[[:alpha:]]+\d`, `^(?:[a-c]|[x-z]){2}`, `^(((((a)))))`,
 		`^((((((((((((((((((((((a))))))))))))))))))))))`, `^(?:a|b|c|d|e|f)g`, `^(?s).+x`, `^.+x`, `^[^\n]`, `^(?i)[k]`, `^(?i)[s-t]`, `^x{0}a`,
-		`^a{0}`, `^(?:a{2,}|b{1})`, `^(?:a|(?:b|(?:c|(?:d|e))))`, `^(?:a$|b)`, `^(?:$a|b)`, `^(?m:$\n|b)`, `^(?:(?:)|b)`, `^(?:a|)`, `^[^\x00-\x{10FFFF}]`, `^(?:a|[^\x00-\x{10FFFF}])`} {
+		`^a{0}`, `^(?:a{2,}|b{1})`, `^(?:a|(?:b|(?:c|(?:d|e))))`, `^(?:a$|b)`, `^(?:$a|b)`, `^(?m:$\n|b)`, `^(?:(?:)|b)`, `^(?:a|)`, `^[^\x00-\x{10FFFF}]`, `^(?:a|[^\x00-\x{10FFFF}])`,
+		`^(?:a|^)`, `^(?m:a|$)`, `^(?m:x|$\na)`, `^(?:x|(^)a)`, `^(?:a|$)`, `^(?:a|$b)`, `^(?:(?:^)+|a)`, `^(?:^$|a)`, `^(?:(?m:^$)\n|a)`, `(?m)^$\na`, `^(?:a|\b)`,
+		`^(?:a|\B)b`, `(?m:^)+((\A)(?m:$))a`, `(?m:^)+((\A)(?m:$))`, `^(?:\ba|x)`, `^(?:(?:^)*a|x)`, `^(?:(?:^|$)a|x)`, `^(?:(?:^){2}a|x)`, `^(?:(?:^)+?a|x)`,
+		`^(?:(?:^)+)+a`, `^(?:a|(?:b|(?:^)))`, `^(?:a|(?:b|(?:^c)))`, `^(?:a|(?:b|(?:(?:^)+c|$\n)))`, `(?m)^(?:a|(?:b|(?:(?:^)+c|$\n)))`, `^(?:^a|$b|\Ac|\zd)`,
+		`(?m)^(?:^a|$b|\Ac|\zd|$\ne)`, `^(?i:^k|$s)`, `^(?:(^)é|($)я)`, `^(?:^|a)*b`, `^(?:^a)*b`, `^(?:^a)+b`, `^(?:^a){2}b`, `^(?:^a){0,2}b`} {
 		add(p)
 	}
 	return out
@@ -99,15 +138,18 @@ func fbHays(p string) [][]byte {
 }
 
 type fbRow struct {
-	p                  string
-	nonNil, useful     bool
-	frag               bool
-	nMatch             int
-	failNE, failAny    int
-	exNE, exAny        string
-	installed          bool
-	apiBad, apiOther   int // coregex != regexp on a haystack the filter rejected / on another haystack
-	exAPI              string
+	p                string
+	nonNil, useful   bool
+	frag             bool
+	nMatch           int
+	failNE, failAny  int
+	exNE, exAny      string
+	failWF           int // failing haystacks that BEGIN with a well-formed rune (not an ill-formed byte read as U+FFFD)
+	exWF             string
+	installed        bool
+	apiBad, apiOther int // coregex != regexp on a haystack the filter rejected / on another haystack
+	exAPI, exOther   string
+	exOtherValid     string // … on a haystack that is valid UTF-8
 }
 
 func fbCheck(reqs *[]req) func() {
@@ -161,6 +203,12 @@ func fbCheck(reqs *[]req) func() {
 					if row.exAny == "" {
 						row.exAny = fmt.Sprintf("%q -> %v", h, loc)
 					}
+					if r, w := utf8.DecodeRune(h); !(r == utf8.RuneError && w == 1) {
+						row.failWF++
+						if row.exWF == "" {
+							row.exWF = fmt.Sprintf("%q -> %v", h, loc)
+						}
+					}
 					if loc[1] > 0 {
 						row.failNE++
 						if row.exNE == "" {
@@ -174,6 +222,12 @@ func fbCheck(reqs *[]req) func() {
 				if fmt.Sprint(a) != fmt.Sprint(b) {
 					if fb.Contains(h[0]) {
 						row.apiOther++ // not the filter's doing (e.g. `.` on ill-formed UTF-8)
+						if row.exOther == "" {
+							row.exOther = fmt.Sprintf("%q regexp %v coregex %v", h, a, b)
+						}
+						if utf8.Valid(h) && row.exOtherValid == "" {
+							row.exOtherValid = fmt.Sprintf("%q regexp %v coregex %v", h, a, b)
+						}
 					} else {
 						row.apiBad++
 						if row.exAPI == "" {
@@ -208,7 +262,7 @@ func fbCheck(reqs *[]req) func() {
 	}
 	return func() {
 		var nNonNil, nUseful, nFragNonNil, nInst, nIncomplete int
-		var badNE, badAny, badFrag, badAPI []*fbRow
+		var badNE, badAny, badFrag, badAPI, badWF []*fbRow
 		matches := 0
 		for _, r := range rows {
 			if r.nonNil {
@@ -236,6 +290,9 @@ func fbCheck(reqs *[]req) func() {
 			if r.apiBad > 0 {
 				badAPI = append(badAPI, r)
 			}
+			if r.failWF > 0 {
+				badWF = append(badWF, r)
+			}
 		}
 		_ = nIncomplete
 		fmt.Printf("first-byte filter: %d patterns (+ %d orbit patterns); set non-nil for %d (IsUseful %d; non-nil and in fbFrag %d); filter installed by meta for %d\n",
@@ -243,6 +300,17 @@ func fbCheck(reqs *[]req) func() {
 		fmt.Printf("  soundness on the real code, %d (pattern, non-empty haystack) pairs with a stdlib match at 0:\n", matches)
 		fmt.Printf("    non-empty match, first byte NOT in the set: %d patterns\n", len(badNE))
 		fmt.Printf("    any match (what the callers assume), first byte NOT in the set: %d patterns, of which inside fbFrag: %d\n", len(badAny), len(badFrag))
+		nFFFD := 0
+		for _, r := range badAny {
+			if strings.Contains(r.p, "FFFD") {
+				nFFFD++
+			}
+		}
+		fmt.Printf("      of these, patterns with a literal U+FFFD (regexp reads an ill-formed byte as U+FFFD; outside fbFrag): %d\n", nFFFD)
+		fmt.Printf("      failing on a haystack that begins with a WELL-FORMED rune (any pattern; must be 0): %d patterns\n", len(badWF))
+		for _, r := range badWF {
+			fmt.Printf("    REAL-CODE SOUNDNESS FAILURE %q haystack %s\n", r.p, r.exWF)
+		}
 		nUsefulBad, nInstBad, other := 0, 0, 0
 		for _, r := range badAny {
 			if r.useful {
@@ -252,14 +320,25 @@ func fbCheck(reqs *[]req) func() {
 				nInstBad++
 			}
 		}
+		otherValid := 0
 		for _, r := range rows {
 			if r.apiOther > 0 {
 				other++
+				if os.Getenv("FB_VERBOSE") != "" {
+					fmt.Printf("    OTHER   %-28q %s\n", r.p, r.exOther)
+				}
+				if r.exOtherValid != "" {
+					otherValid++
+					if os.Getenv("FB_VERBOSE") != "" {
+						fmt.Printf("    OTHERVALID %-28q %s\n", r.p, r.exOtherValid)
+					}
+				}
 			}
 		}
 		fmt.Printf("      of the unsound patterns: IsUseful (so a caller would use the set) %d, filter actually installed by meta %d\n", nUsefulBad, nInstBad)
 		fmt.Printf("    coregex.FindIndex != regexp.FindIndex on a haystack the installed filter rejected: %d patterns\n", len(badAPI))
 		fmt.Printf("      (coregex != regexp on haystacks the filter let through, i.e. other causes: %d patterns — not counted)\n", other)
+		fmt.Printf("      (of those other causes, on a haystack that is valid UTF-8: %d patterns)\n", otherValid)
 		sort.Slice(badAny, func(i, j int) bool { return len(badAny[i].p) < len(badAny[j].p) })
 		for i, r := range badAny {
 			if i >= 40 {
